@@ -363,6 +363,7 @@ func tokens(e common.Entry, p *tcell.VerifParser) []token {
 	add("sgr-wheel", "\x1b[<65;1;1M", mouse(0, 0, tcell.WheelDown), "mouse")
 	add("sgr-negative", "\x1b[<35;-3;-12M", mouse(0, 0, tcell.ButtonNone), "mouse") // the pointer left of and above the window
 	add("x11-press", "\x1b[M !\"", mouse(0, 1, tcell.Button1), "mouse")
+	add("x11-press-8bit", "\x9bM !\"", mouse(0, 1, tcell.Button1), "mouse") // the same report behind the one-byte CSI: five bytes, not six
 	add("paste-start", "\x1b[200~", []ri.Ev{{Kind: "paste", Flag: true}}, "paste")
 	add("paste-end", "\x1b[201~", []ri.Ev{{Kind: "paste", Flag: false}}, "paste")
 	add("focus-in", "\x1b[I", []ri.Ev{{Kind: "focus", Flag: true}}, "")
@@ -618,7 +619,8 @@ func runEntry(w *hc.W, e common.Entry) {
 				// mouse state crosses tokens: press/motion pairs are covered by C12; keep the
 				// compositional claim for strings without a button-state-dependent token
 				checkString(w, r, "tokens", nil, s)
-				if (names[0] == "invalid-ff" || names[0] == "lead-c3") && len(seqIdx) > 1 {
+				if (names[0] == "invalid-ff" || names[0] == "lead-c3") && len(seqIdx) > 1 &&
+					!(names[0] == "lead-c3" && toks[seqIdx[1]].b[0]&0xc0 == 0x80) { // (c3 9b is a character: the 8-bit CSI completes the lead byte)
 					// a stray byte that is no text (invalid, or a lead byte whose character never
 					// completes - no token starts with a continuation byte) in front of recognised
 					// sequences: whatever becomes of it, "a recognised sequence never swallows or
